@@ -72,6 +72,7 @@ def prepare(ch):
             prep.steps = bounded_steps(ch, prep.spec)
         base = ref_agg(prep.spec) if prep.is_agg else ref_tool(prep.spec, prep.steps)
         prep.uses = [u for u in base.world.uses if u not in base.world.repolls]
+        prep.fn_names = set(base.world.fns)
         prep.n_items = base.n_steps_done
     elif prep.kind == "tee":
         n = ch.between(1, 4)
@@ -105,7 +106,7 @@ def fault_lists(prep, faults):
             for j in range(1, prep.n_items + 1):
                 out.append([2, j, faults.draw(len(FAULT_TYPES))])
         for k in range(len(prep.uses)):
-            out.append([3, k, faults.draw(len(FAULT_TYPES))])
+            out.append([3, k, faults.draw(len(FAULT_TYPES)), faults.draw(6)])
     else:
         for p in range(len(prep.ops) + 1):
             out.append([p, faults.draw(2), 0, 0])
@@ -256,6 +257,9 @@ def run_op(prep, st, ctx, out, sim):
             kind = st.faults.draw(len(FAULT_TYPES))
             party, idx = prep.uses[k]
             fault = (party, idx, make_fault(kind, "fault@%d" % k))
+            if party in getattr(prep, "fn_names", ()) and st.faults.draw(6) == 0:
+                # a callable that raises StopAsyncIteration (of all exceptions): an error like any other for the sources
+                fault = (party, idx, StopAsyncIteration("fault@%d" % k))
     world = World(sim, own_log=True)
     if fault:
         world.set_fault(*fault)
